@@ -11,7 +11,8 @@ Bounded-exhaustive enumeration (nothing sampled):
                    defaults included; documented refusals; the chosen functions are the ones that are used
                    for every relaxation step.
   relax          : surface (a,H,k,c) x initial string x image count x time step x integrator, relaxed with
-                   climbing until relax()'s own convergence test stops it.  Oracle: closed-form minima,
+                   climbing (as relax(r, 0) then relax(0, c), for 7 images also as one call relax(r, c))
+                   until relax()'s own convergence test stops it.  Oracle: closed-form minima,
                    saddle, barrier and Hessian eigenvalues of
                    V = H((x/a)^2-1)^2 + k/2 (y - c (x^2-a^2)(1 + s x/a))^2.
 """
@@ -56,12 +57,14 @@ chk.assumptions = [
     'ratio of errors on halving s equals 4 within the same derived interval whenever the neglected terms are < 3% '
     'of the leading one; quadratics exact to the rounding allowance',
     'relax() is run with caps 5000+5000 steps and must stop by its own test; with the documented default tolerance '
-    'tol = max(N^-4,1e-10) on displacement per unit time: |grad V| <= 1.01 tol/(1 - ts L/2) at both ends and at the '
+    'tol = max(N^-4,1e-10) on displacement per unit time; "the highest image" is the highest image of the relaxed '
+    'string before climbing, observed by calling relax(r, 0) and then relax(0, c) (7-image strings: also relax(r, c)); '
+    '|grad V| <= 1.01 tol/(1 - ts L/2) at both ends and at the '
     'highest image (L = largest |Hessian eigenvalue| at the stationary points, ts L < 0.25 asserted; the factor is '
     '1.00..1.12 over the menu), positions '
     'within 3 tol/|lambda|min of the minima (-a,0),(+a,0) and of the saddle (0,-c a^2), |Emax - H| <= 1e-5 H',
     'scipy CubicSpline and numpy linear algebra are trusted; analytic gradients of the test functions were '
-    'derived by hand and are cross-checked against each other by the second-order clause itself',
+    'derived by hand (a slip in one of them shows as a violation of the second-order clause on the unmodified code)',
 ]
 
 # --------------------------------------------------------------------------------------------
@@ -567,70 +570,94 @@ def relax(case):
     ts = ts0 * TSFACTORS[case['ts']]
     kw = {} if case['ts'] == 0 else {'timestep': ts}
     cap = int(round(STEPCAP / TSFACTORS[case['ts']]))      # the same pseudo-time for every time step
-    final, out = quiet(path.relax, relaxsteps=cap, climbsteps=cap, **kw)
-    steps = [int(l.split(':')[1]) for l in out.splitlines() if 'steps performed' in l]
-    ebefore = [float(l.split('=')[1]) for l in out.splitlines() if 'Max energy before climb' in l]
-    chk.note('relax-comparisons', 8)
-    chk.note('relax-steps-total', sum(steps))
-    if len(steps) != 2 or max(steps) >= cap:
-        return fails + [Fail(key='not-converged', msg='relax did not stop by its own convergence test within %d+%d steps: %s' % (cap, cap, steps))]
-    if ebefore and abs(ebefore[0] - S.H) > 1e-5 * S.H:
-        chk.note('relax-nontrivial-climb')
-    coord = final.coord
-    if coord.shape != start.shape:
-        return fails + [Fail(key='path-shape', msg='relaxed path has shape %s' % (coord.shape,))]
     lam_min = [S.eig2(-S.a), S.eig2(S.a)]
     lam_sad = S.eig2(0.0)
     lam_max = max(lam_min[0][1], lam_min[1][1], abs(lam_sad[0]), lam_sad[1])
+    lam_abs = min(abs(lam_sad[0]), abs(lam_sad[1]))
     # relax() stops when every image moved less than tol*ts in one step.  An end image and the climbing image are not
     # touched by the re-spacing (they are spline knots that keep their arc coordinate), so their displacement is the
     # integrator step alone: |dx|/ts = |phi(-ts M) grad V| >= (1 - ts L/2) |grad V| for Euler (phi = 1) and Runge-Kutta
     # (phi(z) = 1 + z/2 + z^2/6 + z^3/24), M the Hessian, L its largest |eigenvalue|; 1% for the anharmonic part.
     assert ts * lam_max < 0.25 and lam_sad[0] < 0 < lam_sad[1] and min(lam_min[0][0], lam_min[1][0]) > 0
     gfac = 1.01 / (1.0 - ts * lam_max / 2)
-    g = S.grad(coord)
-    E = S.V(coord)
-    tag = '%s surf=%s %s N=%d ts=%g' % (integ, SURFACES[case['surf']], kind, n, ts)
-    # ends in the minima
-    for e, (idx, m) in enumerate(zip((0, -1), S.minima)):
-        dist = float(np.linalg.norm(coord[idx] - m))
-        gn = float(np.linalg.norm(g[idx]))
-        if not dist <= 3 * tol / lam_min[e][0]:
-            fails.append(Fail(key='end-not-in-minimum', msg='%s: end %d at %s, minimum %s, distance %.3g > 3 tol/lambda = %.3g'
-                                                            % (tag, e, coord[idx], m, dist, 3 * tol / lam_min[e][0]), observed=coord[idx], expected=m))
+    tag0 = '%s surf=%s %s N=%d ts=%g' % (integ, SURFACES[case['surf']], kind, n, ts)
+
+    def nsteps(out):
+        return [int(l.split(':')[1]) for l in out.splitlines() if 'steps performed' in l]
+
+    # relaxation and climbing as two calls, so that the relaxed string before climbing can be seen
+    relaxed, out1 = quiet(path.relax, relaxsteps=cap, climbsteps=0, **kw)
+    steps = nsteps(out1)
+    chk.note('relax-steps-total', sum(steps))
+    if len(steps) != 1 or steps[0] >= cap:
+        return fails + [Fail(key='not-converged', msg='%s: relax(relaxsteps=%d) did not stop by its own convergence test: %s' % (tag0, cap, steps))]
+    E0 = S.V(relaxed.coord)
+    i0 = int(np.argmax(E0))
+    if np.shape(relaxed.coord) != start.shape or i0 in (0, n - 1):
+        return fails + [Fail(key='relaxed-string-has-no-interior-maximum', msg='%s: highest image of the relaxed string is %d' % (tag0, i0))]
+    if abs(float(E0[i0]) - S.H) > 1e-5 * S.H:
+        chk.note('relax-nontrivial-climb')
+    climbed, out2 = quiet(relaxed.relax, relaxsteps=0, climbsteps=cap, **kw)
+    finals = [('two calls', climbed, nsteps(out2), 1)]
+    if case['n'] == 0:
+        # ... and in one call (the shortest strings only: same work again)
+        both, out3 = quiet(path.relax, relaxsteps=cap, climbsteps=cap, **kw)
+        finals.append(('one call', both, nsteps(out3), 2))
+
+    for mode, final, steps, nexpect in finals:
+        tag = tag0 + ' (%s)' % mode
+        chk.note('relax-comparisons', 9)
+        chk.note('relax-steps-total', steps[-1] if steps else 0)
+        if len(steps) != nexpect or max(steps) >= cap:
+            fails.append(Fail(key='not-converged', msg='%s: relax did not stop by its own convergence test within %d steps: %s' % (tag, cap, steps)))
+            continue
+        coord = final.coord
+        if coord.shape != start.shape:
+            fails.append(Fail(key='path-shape', msg='%s: relaxed path has shape %s' % (tag, coord.shape)))
+            continue
+        nf = len(fails)
+        g = S.grad(coord)
+        E = S.V(coord)
+        # ends in the minima
+        for e, (idx, m) in enumerate(zip((0, -1), S.minima)):
+            dist = float(np.linalg.norm(coord[idx] - m))
+            gn = float(np.linalg.norm(g[idx]))
+            if not dist <= 3 * tol / lam_min[e][0]:
+                fails.append(Fail(key='end-not-in-minimum', msg='%s: end %d at %s, minimum %s, distance %.3g > 3 tol/lambda = %.3g'
+                                                                % (tag, e, coord[idx], m, dist, 3 * tol / lam_min[e][0]), observed=coord[idx], expected=m))
+            elif not gn <= gfac * tol:
+                fails.append(Fail(key='end-gradient', msg='%s: |grad V| = %.3g at end %d > %.3f tol = %.3g' % (tag, gn, e, gfac, gfac * tol)))
+        # the highest image of the relaxed string has been brought to the saddle (and is still the highest)
+        i = int(np.argmax(E))
+        gn = float(np.linalg.norm(g[i0]))
+        dist = float(np.linalg.norm(coord[i0] - S.saddle))
+        if i != i0:
+            fails.append(Fail(key='highest-image-changed', msg='%s: image %d was the highest of the relaxed string, after climbing image %d is the highest '
+                                                               '(image %d at %s, saddle %s)' % (tag, i0, i, i0, coord[i0], S.saddle)))
+        elif not dist <= 3 * tol / lam_abs:
+            fails.append(Fail(key='highest-image-not-at-saddle', msg='%s: highest image %d at %s, saddle %s, distance %.3g > 3 tol/|lambda| = %.3g'
+                                                                     % (tag, i, coord[i], S.saddle, dist, 3 * tol / lam_abs), observed=coord[i], expected=S.saddle))
         elif not gn <= gfac * tol:
-            fails.append(Fail(key='end-gradient', msg='%s: |grad V| = %.3g at end %d > %.3f tol = %.3g' % (tag, gn, e, gfac, gfac * tol)))
-    # highest image at the saddle
-    i = int(np.argmax(E))
-    gn = float(np.linalg.norm(g[i]))
-    dist = float(np.linalg.norm(coord[i] - S.saddle))
-    lam_abs = min(abs(lam_sad[0]), abs(lam_sad[1]))
-    if i in (0, n - 1):
-        fails.append(Fail(key='highest-image-is-an-end', msg='%s: highest image is end %d' % (tag, i)))
-    elif not dist <= 3 * tol / lam_abs:
-        fails.append(Fail(key='highest-image-not-at-saddle', msg='%s: highest image %d at %s, saddle %s, distance %.3g > 3 tol/|lambda| = %.3g'
-                                                                 % (tag, i, coord[i], S.saddle, dist, 3 * tol / lam_abs), observed=coord[i], expected=S.saddle))
-    elif not gn <= gfac * tol:
-        fails.append(Fail(key='saddle-gradient', msg='%s: |grad V| = %.3g at the highest image > %.3f tol = %.3g' % (tag, gn, gfac, gfac * tol)))
-    if not abs(float(E[i]) - S.H) <= 1e-5 * S.H:
-        fails.append(Fail(key='barrier', msg='%s: highest energy %.9g, true barrier %.9g' % (tag, E[i], S.H), observed=float(E[i]), expected=S.H))
-    if fails:
-        return fails
-    # the path object's own observables on the relaxed path
-    Ep = np.asarray(final.energy())
-    gp = np.asarray(final.grad_energy())
-    fp = np.asarray(final.force)
-    ap = np.asarray(final.arccoord)
-    gtol = 1e-7 * (1 + np.abs(g).max())                    # shift 1e-5: truncation ~1e-10 f''', rounding ~50 eps V/1e-5
-    seg = np.linalg.norm(coord[1:] - coord[:-1], axis=1)
-    if not (Ep.shape == (n,) and np.array_equal(Ep, E)):
-        fails.append(Fail(key='path-energy', msg='%s: path.energy() differs from the energy function at path.coord' % tag))
-    if not (gp.shape == (n, 2) and np.abs(gp - g).max() <= gtol):
-        fails.append(Fail(key='path-grad-energy', msg='%s: path.grad_energy() differs from the analytic gradient by %.3g' % (tag, np.abs(gp - g).max())))
-    elif not (fp.shape == (n,) and np.abs(fp - np.einsum('ij,ij->i', g, own_tangent(coord))).max() <= 2 * gtol):
-        fails.append(Fail(key='path-force', msg='%s: path.force is not grad E . unit tangent' % tag))
-    if not (ap.shape == (n,) and ap[0] == 0 and np.abs(ap[1:] - np.cumsum(seg)).max() <= 1e-12 * seg.sum()):
-        fails.append(Fail(key='path-arccoord', msg='%s: path.arccoord is not the cumulative chord length' % tag))
+            fails.append(Fail(key='saddle-gradient', msg='%s: |grad V| = %.3g at the highest image > %.3f tol = %.3g' % (tag, gn, gfac, gfac * tol)))
+        if not abs(float(E[i]) - S.H) <= 1e-5 * S.H:
+            fails.append(Fail(key='barrier', msg='%s: highest energy %.9g, true barrier %.9g' % (tag, E[i], S.H), observed=float(E[i]), expected=S.H))
+        if len(fails) > nf:
+            continue
+        # the path object's own observables on the relaxed path
+        Ep = np.asarray(final.energy())
+        gp = np.asarray(final.grad_energy())
+        fp = np.asarray(final.force)
+        ap = np.asarray(final.arccoord)
+        gtol = 1e-7 * (1 + np.abs(g).max())                    # shift 1e-5: truncation ~1e-10 d3V, rounding ~50 eps V/1e-5
+        seg = np.linalg.norm(coord[1:] - coord[:-1], axis=1)
+        if not (Ep.shape == (n,) and np.array_equal(Ep, E)):
+            fails.append(Fail(key='path-energy', msg='%s: path.energy() differs from the energy function at path.coord' % tag))
+        if not (gp.shape == (n, 2) and np.abs(gp - g).max() <= gtol):
+            fails.append(Fail(key='path-grad-energy', msg='%s: path.grad_energy() differs from the analytic gradient by %.3g' % (tag, np.abs(gp - g).max())))
+        elif not (fp.shape == (n,) and np.abs(fp - np.einsum('ij,ij->i', g, own_tangent(coord))).max() <= 2 * gtol):
+            fails.append(Fail(key='path-force', msg='%s: path.force is not grad E . unit tangent' % tag))
+        if not (ap.shape == (n,) and ap[0] == 0 and np.abs(ap[1:] - np.cumsum(seg)).max() <= 1e-12 * seg.sum()):
+            fails.append(Fail(key='path-arccoord', msg='%s: path.arccoord is not the cumulative chord length' % tag))
     return fails
 
 
